@@ -100,8 +100,8 @@ def build_harness(flavour='san'):
                 raise RuntimeError('harness link failed:\n' + r.stdout[-6000:])
             os.replace(exe + '.tmp', exe)
         # bound the cache: drop objects/binaries not used for a day when there are many
-        prune(objdir, 400)
-        prune(CACHE, 60, prefix='cppdrv.')
+        prune(objdir, 200)
+        prune(CACHE, 12, prefix='cppdrv.')
         return exe, log
 
 
